@@ -161,6 +161,8 @@ def walkHead (c : TCase) (checkInvalid : Bool) : HeadSt :=
          match t.res with
          | ["bytes", _, o] =>
            if bad && checkInvalid then { s with fail := some s!"a request that cannot be a correct HTTP/1.x message was accepted: {t.raw.take 140}" } else
+           -- a request that was refused stays refused: nothing of it may reach the wire on a later call
+           if bad && s.rejected && o != "-" then { s with fail := some s!"head bytes were emitted for a request that an earlier call had refused: {t.raw.take 140}" } else
            if bad then s else
            let s := startUnits s
            let (fit0, _) := greedyUnits s.units cap
